@@ -30,6 +30,11 @@ type dataOp struct {
 	trunc bool
 	off   int64 // write offset, or new size for trunc
 	data  []byte
+	// lost: an fsync of the file failed with EIO while this operation was
+	// dirty. As on Linux, the pages are then marked clean: the data stays
+	// readable from the cache but no later fsync writes it back, and it does
+	// not survive a crash.
+	lost bool
 }
 
 type jop struct {
@@ -113,6 +118,8 @@ type Kernel struct {
 	fds     map[int]*fdesc
 	journal []jop
 	durable map[int]*dinode
+	// Lost: writes dropped from write-back by failed fsyncs (see dataOp.lost)
+	Lost []LostWrite
 	nsys    int
 	opCount map[string]int
 	used    int64
@@ -360,9 +367,34 @@ func (k *Kernel) forceData(in *inode) {
 		k.durable[in.ino] = d
 	}
 	for _, op := range in.pending {
-		applyData(d, op, -1)
+		if !op.lost {
+			applyData(d, op, -1)
+		}
 	}
 	in.pending = nil
+}
+
+// failSync: an fsync of fd failed with an I/O error. Everything dirty at that
+// moment is dropped from write-back for good (see dataOp.lost).
+func (k *Kernel) failSync(fd int) {
+	f := k.fds[fd]
+	if f == nil || f.ino.isDir {
+		return
+	}
+	for i := range f.ino.pending {
+		op := &f.ino.pending[i]
+		if !op.lost && !op.trunc {
+			k.Lost = append(k.Lost, LostWrite{Ino: f.ino.ino, Off: op.off, Len: len(op.data)})
+		}
+		op.lost = true
+	}
+}
+
+// LostWrite is a write that a failed fsync dropped from write-back.
+type LostWrite struct {
+	Ino int
+	Off int64
+	Len int
 }
 
 func applyData(d *dinode, op dataOp, tornAt int) {
@@ -703,6 +735,9 @@ func (k *Kernel) Crash(choose func(n int) int) CrashStats {
 				kept[i] = true
 			default:
 				kept[i] = choose(2) == 1
+			}
+			if in.pending[i].lost {
+				kept[i] = false
 			}
 			if kept[i] && !in.pending[i].trunc {
 				lastKept = i
